@@ -75,8 +75,7 @@ def _c11_minima(tier):
          'c11.regular_but_double_rounding_singular': 2000 if th else 100, 'c11.singular_but_double_rounding_regular': 500 if th else 25,
          'c11.bits.gt128': 5000 if th else 250, 'c11.sparse_result.setup_checked': 20000 if th else 1000,
          'distinct:nontrivial': 1500 if th else 300}
-    for v in ('solveRight.dense', 'solveRight.sparse', 'solveLeft.dense', 'solveLeft.sparse', 'solveLeft2.x', 'solveLeft3.x', 'solveRight4update',
-              'solve2right4update.x', 'solve3right4update.x'):
+    for v in ('solveRight.dense', 'solveRight.sparse', 'solveLeft.dense', 'solveLeft.sparse', 'solveLeft2.x', 'solveLeft3.x', 'solveRight4update'):
         for ut in ('FT', 'ETA'):
             m['c11.eval.%s.%s' % (v, ut)] = 10000 if th else 500
     return m
